@@ -2,7 +2,12 @@
 //! `vh` — correspondence harness: runs the real ldpc-toolbox code in-process on generated
 //! inputs and prints one canonical case line per input:  `<tag> <input…> => <implementation output…>`.
 //! All random choices derive from one splitmix64 state seeded with --seed (VERIF_SEED).
+mod arith_test;
+mod c01;
+mod c03;
+mod c04;
 mod c15;
+mod dec;
 mod c17;
 mod fmt;
 mod rng;
@@ -109,7 +114,11 @@ fn main() {
         i += 1;
     }
     // panics are outcomes, not noise
-    std::panic::set_hook(Box::new(|_| {}));
+    std::panic::set_hook(Box::new(|info| {
+        if std::env::var("VH_DEBUG").is_ok() {
+            eprintln!("panic: {}", info);
+        }
+    }));
     let out = std::io::BufWriter::new(std::fs::File::create(&out_path).expect("create out"));
     let mut ctx = Ctx {
         seed,
@@ -126,6 +135,12 @@ fn main() {
         std::fs::read_to_string(p).expect("replay file").lines().map(|l| l.to_string()).collect()
     });
     match prop.as_str() {
+        "c01" => c01::run_c01(&mut ctx, replay_lines.as_deref()),
+        "c10" => c01::run_c10(&mut ctx, replay_lines.as_deref()),
+        "c18" => c01::run_c18(&mut ctx, replay_lines.as_deref()),
+        "c04" => c04::run_c04(&mut ctx, replay_lines.as_deref()),
+        "c05" => c04::run_c05(&mut ctx, replay_lines.as_deref()),
+        "c03" => c03::run(&mut ctx, replay_lines.as_deref()),
         "c15" => c15::run(&mut ctx, replay_lines.as_deref()),
         "c17" => c17::run(&mut ctx, replay_lines.as_deref()),
         _ => {
